@@ -128,7 +128,8 @@ fn build(c: &'static Coin, case: &Case) -> ChainBuilder {
 pub fn run() -> Report {
     let mut rep = Report::new("C15", "e1");
     let thorough = is_thorough();
-    let tvals = [1u32, 1000, 4_000_000_000];
+    // thorough: a fourth timestamp value (the sign bit of a 32-bit time) - 340 sequences instead of 120
+    let tvals: Vec<u32> = if thorough { vec![1, 1000, 0x8000_0000, 4_000_000_000] } else { vec![1, 1000, 4_000_000_000] };
     let mut cases: Vec<Case> = Vec::new();
     for cn in ["bitcoin", "litecoin"] {
         // all timestamp sequences of length 1..4 x tx mixes
@@ -137,7 +138,7 @@ pub fn run() -> Report {
         for _ in 0..4 {
             let mut next = vec![];
             for s in &frontier {
-                for t in tvals {
+                for &t in &tvals {
                     let mut x = s.clone();
                     x.push(t);
                     next.push(x);
@@ -147,7 +148,10 @@ pub fn run() -> Report {
             frontier = next;
         }
         for s in &seqs {
-            for mix in 0..7u8 {
+            for mix in 0..8u8 {
+                if mix == 4 {
+                    continue; // (4 is the transaction-less mix of other families)
+                }
                 if cn == "litecoin" && !thorough && (mix + s.len() as u8) % 3 != 0 {
                     continue;
                 }
@@ -262,6 +266,68 @@ pub fn run() -> Report {
     for p in parts {
         rep.merge(p);
     }
+    index_above_range_start(&mut rep, &root);
     let _ = std::fs::remove_dir_all(&root);
     rep
+}
+
+/// An index whose records begin above the start of the requested range (a node bootstrapped from a snapshot, a partial copy of
+/// an index): whichever blocks a run over it delivers - none, as on the pinned tree, or those it finds - is C02's business; the
+/// FIGURES must be the definitions computed over the delivered blocks. Which blocks were delivered is taken from a csvdump
+/// run with the same options (every callback observes the same blocks).
+fn index_above_range_start(rep: &mut Report, root: &std::path::Path) {
+    let mut cases = Vec::new();
+    for cn in ["bitcoin", "litecoin"] {
+        for base in [5u64, 300, 210_001] {
+            for start in [None, Some(0u64), Some(base - 2), Some(base)] {
+                for n in [1usize, 3, 4] {
+                    cases.push((cn, base, start, n));
+                }
+            }
+        }
+    }
+    let parts = par_fold(
+        &cases,
+        || Report::new("C15", "e1"),
+        |w, i, (cn, base, start, n), acc| {
+            let c = coin(cn);
+            let wk = Worker::new(root, 600 + w);
+            let case = Case { coin: cn, base: *base, times: (0..*n).map(|k| 1_500_000_000 + [600u32, 1200, 60, 7200][(i + k) % 4] * k as u32).collect(), mix: [0u8, 1, 3][i % 3], cb_delta: 9, types_world: false, label: "index starts above the range start" };
+            let cb = build(c, &case);
+            let world = World::simple(c, &cb.blocks, *base);
+            if let Err(m) = wk.materialise(&world) {
+                return acc.machinery(m);
+            }
+            acc.states += 1;
+            acc.nontrivial.insert(h8(format!("above{}{}{:?}{}", cn, base, start, n).as_bytes()));
+            acc.count(case.label, 1);
+            let listing = wk.run(&RunSpec::new(cn, "csvdump").range(*start, None));
+            acc.transitions += 1;
+            let mut delivered: Vec<u64> = Vec::new();
+            for (name, content) in &listing.files {
+                if name.starts_with("blocks") {
+                    delivered.extend(String::from_utf8_lossy(content).lines().filter_map(|l| l.split(';').nth(1).and_then(|h| h.parse::<u64>().ok())));
+                }
+            }
+            let spec = RunSpec::new(cn, "simplestats").range(*start, None);
+            let r = wk.run(&spec);
+            acc.transitions += 1;
+            if !r.ok() || !listing.ok() {
+                acc.count("index starts above the range start: run failed (not judged)", 1);
+                return;
+            }
+            if delivered.is_empty() {
+                acc.count("index starts above the range start: nothing delivered (not judged)", 1);
+                return;
+            }
+            acc.count("index starts above the range start: judged", 1);
+            let range: Vec<refmodel::model::MBlock> = cb.mblocks().into_iter().filter(|b| delivered.contains(&b.height)).collect();
+            if let Some((sig, detail)) = check_stats(&r, c, &range).into_iter().next() {
+                acc.disagree(&format!("index-above-range-start:{}", sig), format!("{} index records {}..{} read with --start {:?}: csvdump delivers heights {:?}; simplestats: {}", cn, base, base + *n as u64 - 1, start, delivered, detail), replay_case(&world, &spec, json!({"oracle": "exact recomputation over the blocks a csvdump run with the same options delivers"}), &r, &wk.dir));
+            }
+        },
+    );
+    for p in parts {
+        rep.merge(p);
+    }
 }
